@@ -411,6 +411,7 @@ try:
         if accepted and got != [val]: bad.append(("value silently altered", typ, repr(val), repr(got)))
         if not accepted and got: bad.append(("rejected value left rows", typ, repr(val)))
         if accepted and not ok: bad.append(("unrepresentable value accepted", typ, repr(val), repr(got)))
+        if not accepted and ok: bad.append(("a value of the declared type was rejected", typ, repr(val)))
     p = os.path.join(root, "nan"); t = create_table(p, schema=S(1, [F(1, "v", "double")])); t.append_records([{"v": float("nan")}])
     g = [r["v"] for r in load_table(p).scan()]
     if not (len(g) == 1 and isinstance(g[0], float) and math.isnan(g[0])): bad.append(("NaN not returned", g))
@@ -442,6 +443,43 @@ sys.exit(1 if bad else 0)
 register(Unit(P, "SIG/_schema_signature", h_signature, functions=[f"{TX}:Transaction._schema_signature"], replay=_replay_c11))
 register(Unit(P, "ACCEPT-EQUIV/_validate_schema_against_table", h_validate, functions=[f"{TX}:Transaction._validate_schema_against_table"], replay=_replay_c11))
 register(Unit(P, "CACHE/create_arrow_schema", h_arrow_cache, functions=[f"{DO}:DataFileManager.create_arrow_schema"], replay=_replay_c11))
+# TYPEMAP: the column type a value is stored with.  Specification table written from the Iceberg spec's Arrow mapping, not from the
+# code: a column declared long must hold every 64-bit value, double every binary64, string every str, ... (WRITE-EXACT relies on it)
+_TYPEMAP_SPEC = {"boolean": ("bool_",), "int": ("int32",), "long": ("int64",), "float": ("float32",), "double": ("float64",),
+                 "date": ("date32",), "time": ("time64", "us"), "timestamp": ("timestamp", "us"), "string": ("string",),
+                 "uuid": ("string",), "binary": ("binary",), "fixed": ("binary",)}
+
+
+def h_typemap(h: H):
+    c = h.ctx
+    for ctor in ("bool_", "int32", "int64", "float32", "float64", "date32", "time64", "timestamp", "string", "binary", "int8", "int16",
+                 "uint32", "uint64", "large_string", "large_binary", "float16", "date64", "time32", "utf8"):
+        h.reg.modfuncs[f"pyarrow.{ctor}"] = (lambda name: lambda I, a, k: ("arrowtype", name) + tuple(I.force(x) for x in a))(ctor)
+    h.reg.modfuncs["pyarrow.list_"] = lambda I, a, k: ("arrowtype", "list_", a[0])
+    dm = h.obj("DataFileManager")
+    names = sorted(_TYPEMAP_SPEC)
+    k = c.choose(len(names) + 2, "type-name")
+    as_dict = c.flip("given-as-a-field-type-dict")
+    if k < len(names):
+        tname, want = names[k], ("arrowtype",) + _TYPEMAP_SPEC[names[k]]
+    elif k == len(names):
+        inner = names[c.choose(len(names), "element-type")]
+        tname, want = f"list<{inner}>", ("arrowtype", "list_", ("arrowtype",) + _TYPEMAP_SPEC[inner])
+    else:
+        tname, want = h.str("unknown_type_name"), ("arrowtype", "string")
+        for n in names:
+            h.assume(tname.z != z3.StringVal(n))
+        for pre in ("list<", "map<", "struct<"):
+            h.assume(z3.Not(z3.PrefixOf(z3.StringVal(pre), tname.z)))
+    arg = PDict({"type": tname}) if as_dict else tname
+    out, val = h.run(f"{DO}:DataFileManager._iceberg_type_to_arrow", [dm, arg])
+    h.ensure("TYPEMAP:never-raises", out == "ok", detail=repr(val) if out != "ok" else "")
+    if out == "ok":
+        h.ensure("TYPEMAP:each-declared-type-is-stored-in-the-Arrow-type-that-holds-all-its-values(unknown-names-as-string)",
+                 val == want, detail=f"{tname!r}: got {val!r}, specification {want!r}")
+
+
+register(Unit(P, "TYPEMAP/_iceberg_type_to_arrow", h_typemap, functions=[f"{DO}:DataFileManager._iceberg_type_to_arrow"], replay=_replay_c11))
 register(Unit(P, "FILE-SCHEMA/_validate_file_schema", h_file_schema, functions=[f"{TX}:Transaction._validate_file_schema"], replay=_replay_c11))
 register(Unit(P, "STRICT/validate_records_strict(1-field,1-record:bounded-sizes)", h_strict, functions=[f"{DO}:DataFileManager.validate_records_strict"], replay=_replay_c11,
               note="bounded: schema of one field and one single-key record; all names and values symbolic"))
